@@ -9,7 +9,7 @@
 use crate::patch_archive::{
     PatchArchive, PatchArchiveHeader,
     block::{FilePatch, PatchArchiveEncodingInfo, PatchFileEntry, write_key, write_uint40_be},
-    error::PatchArchiveResult,
+    error::{PatchArchiveError, PatchArchiveResult},
     header::{STANDARD_BLOCK_SIZE_BITS, STANDARD_KEY_SIZE},
 };
 use binrw::BinWrite;
@@ -123,6 +123,36 @@ impl PatchArchiveBuilder {
     /// Write the patch archive to a writer
     pub fn write_to<W: Write>(&self, writer: &mut W) -> PatchArchiveResult<()> {
         let file_key_size = STANDARD_KEY_SIZE;
+
+        // Every field has a fixed width on the wire: refuse what does not fit instead of
+        // writing a truncated value
+        const MAX_UINT40: u64 = (1 << 40) - 1;
+        for entry in &self.file_entries {
+            // num_patches is one byte and 0 is the end-of-block sentinel
+            if entry.patches.is_empty() || entry.patches.len() > usize::from(u8::MAX) {
+                return Err(PatchArchiveError::InvalidEntry(format!(
+                    "entry has {} patches, expected 1..=255",
+                    entry.patches.len()
+                )));
+            }
+            // decoded sizes are uint40
+            if entry.decoded_size > MAX_UINT40
+                || entry
+                    .patches
+                    .iter()
+                    .any(|patch| patch.source_decoded_size > MAX_UINT40)
+            {
+                return Err(PatchArchiveError::InvalidEntry(
+                    "decoded size does not fit 40 bits".to_string(),
+                ));
+            }
+        }
+        // the ESpec of the encoding info is length-prefixed by one byte
+        if let Some(ref info) = self.encoding_info
+            && info.espec.len() > usize::from(u8::MAX)
+        {
+            return Err(PatchArchiveError::StringTooLong);
+        }
 
         // Sort entries by target CKey for correct block ordering
         let mut sorted_entries = self.file_entries.clone();
